@@ -49,7 +49,7 @@ def cli_argv(variables, limit, outname):
     return argv
 
 
-def run_one(mods, ref, variables, limit, ctx, outname='out', canary=False, schedule=None, cli=False):
+def run_one(mods, ref, variables, limit, ctx, outname='out', canary=False, schedule=None, cli=False, prior=None):
     Colander = mods['amr_kitchen.colander.colander'].Colander
     Taster = mods['amr_kitchen.taste.taste'].Taster
     fs = SymFS()
@@ -70,6 +70,12 @@ def run_one(mods, ref, variables, limit, ctx, outname='out', canary=False, sched
                 finally:
                     sys.argv = old_argv
             else:
+                if prior is not None:
+                    # a history in one process: another strain (other variables, other limit) is built and run first,
+                    # and a third Colander is built (not run) in between
+                    what = 'Colander(variables=%r, limit_level=%r).strain(); Colander(variables=%r); %s' % (prior[0], prior[1], prior[2], what)
+                    Colander(plotfile='plt', limit_level=prior[1], output='out_prior', variables=list(prior[0])).strain()
+                    Colander(plotfile='plt', output='out_unused', variables=list(prior[2]))
                 Colander(plotfile='plt', limit_level=limit, output=outname, variables=list(variables)).strain()
         except SystemExit as e:
             obl.fail('%s exited with %r' % (what, e.code))
@@ -156,6 +162,18 @@ def run_case(case):
                 if sig not in viol:
                     viol[sig] = {'signature': sig, 'what': obl.failed[0][0], 'variables': variables, 'limit': limit, 'cli': True}
 
+    # histories: two strains in one process
+    for variables, limit, prior in [(sels[1 % len(sels)], None, (sels[-1], 0, ['all'])), (['all'], max(0, ref.nlev - 2), (sels[0], None, sels[-1]))]:
+        def hpath(ctx, variables=variables, limit=limit, prior=prior):
+            return run_one(mods, ref, variables, limit, ctx, prior=prior)
+        results, exhaustive, stats = core.explore(hpath, max_paths=8)
+        res.add_explore(results, exhaustive, stats)
+        nruns += 1
+        for ctx, (obl, fs) in results:
+            res.add_obl(obl)
+            if obl.failed and 'C05/history' not in viol:
+                viol['C05/history'] = {'signature': 'C05/history', 'what': obl.failed[0][0], 'variables': variables, 'limit': limit, 'prior': [list(prior[0]), prior[1], list(prior[2])]}
+
     def canary(ctx):
         return run_one(mods, ref, sels[1], None, ctx, canary=True)
     cres, _, _ = core.explore(canary, max_paths=2)
@@ -173,12 +191,16 @@ def run_case(case):
         ref.write_symfs(fs, '/work/plt')
         run = ("from amr_kitchen.colander.colander import Colander\n"
                "Colander(plotfile=os.path.join(IN, 'plt'), limit_level=%r, output=OUT, variables=%r).strain()\n" % (v['limit'], v['variables']))
+        if v.get('prior'):
+            pv, pl, pu = v['prior']
+            run = ("from amr_kitchen.colander.colander import Colander\n"
+                   "Colander(plotfile=os.path.join(IN, 'plt'), limit_level=%r, output=os.path.join(IN, 'out_prior'), variables=%r).strain()\n"
+                   "Colander(plotfile=os.path.join(IN, 'plt'), output=os.path.join(IN, 'out_unused'), variables=%r)\n" % (pl, pv, pu)) + run.split('\n', 1)[1]
         if v.get('cli'):
             run = ("import sys\nfrom amr_kitchen.colander import cli\nsys.argv = ['colander', os.path.join(IN, 'plt')] + %r\ncli.main()\n"
                    % (cli_argv(v['variables'], v['limit'], '@OUT@')[2:],)).replace("'@OUT@'", 'OUT')
-        d = replay_lib.make_tool_replay('C05', sig, v['what'], {'plt': (fs, '/work/plt')}, run,
-                                        {'kind': 'tree', 'tree_exp': strain_expected(ref, v['variables'], v['limit']), 'compare': 'bits'})
-        status, out = common.run_replay(d)
+        d, status, out = common.replay_portfolio(lambda: replay_lib.make_tool_replay('C05', sig, v['what'], {'plt': (fs, '/work/plt')}, run,
+                                        {'kind': 'tree', 'tree_exp': strain_expected(ref, v['variables'], v['limit']), 'compare': 'bits'}))
         v['replay'] = d
         if status == 'reproduced':
             res['violations'].append(v)
